@@ -18,8 +18,31 @@ CHECKS = {
          "For every instance TLC checks that each real row carries exactly the declared output names, that each value fits the declared type (Types.tla), and that the declared types equal the ones Query.tla derives "
          "from the source-level query (nullable under @optional, one list level per @fold, list nullable iff the fold hangs under an @optional, Int! counts).",
          "Trusts Query!OutTypes as a reading of the language reference; same universe bounds as C01."),
+ "C06": (MC, "6/C06", "TLC: Candidates.tla (transcription of candidates.rs) proved exact on all candidate pairs of a bounded domain; every pair replayed through the real intersect/normalize/exclude/contains and judged by TLC",
+         "TLC enumerates ~194 candidates per domain (every bound combination, null inclusion, singles, multiples, impossible, all) over three concretisations (signed, mixed signed/unsigned beyond i64::MAX, strings), "
+         "proves the set-exactness laws for the transcription on all pairs x probes, and every pair is executed by the real functions through the __verif hooks; TLC judges membership of every probe in every result.",
+         "Bounded to a 4-point ordered domain + null per concretisation; trusts the hook wrappers (thin pub fns) and TLC."),
+ "C07": (MC, "6/C07", "TLC: operator laws on Values.tla over the bounded value universe; every typed (operator, left, right) driven through the real engine's public filter path (variable and tag arguments) and judged by TLC via Sem",
+         "TLC checks complement / null / numeric-order / partition laws of FilterOp on the model, dumps the universe, and every operand pair the frontend's typing admits is decided by the real engine through real queries "
+         "(variable path with its precompiled regex, tag path), the passing set being compared with Values!FilterOp.",
+         "Regex restricted to the fragment ^?literal$?; universe bounded (boundary integers in both representations, 4 floats, 4 strings, lists up to depth 2)."),
+ "C08": (MC, "6/C08", "TLC: equivalence and total-order laws on Values.tla for all triples; real == and partial_cmp on every ordered pair judged by TLC against ValueEq/TotalLess",
+         "All triples of an 83-value universe (null, bools, boundary integers in both representations, floats, strings, enums, nested and mixed-representation lists) satisfy the laws on the model, and the real "
+         "PartialEq/PartialOrd of FieldValue agree with the model on every ordered pair.",
+         "Bounded universe; finite floats only."),
+ "C16": (EX, "6/C16", "exploration: round trips of TLC-enumerated types and values and of compiled queries; type text judged by TLC against Types!Render",
+         "Identity after JSON/RON round trips for 120 types, 83 values and the compiled queries of the semantic universe; Display tokens equal Types!Render and parse(Display(t)) = t; untagged JSON form and back.",
+         "The model content is thin (identity laws, the token grammar of types); exploration level."),
+ "C17": (MC, "6/C17", "TLC: lattice / partial-order / equivalence / monotonicity laws on Types.tla for all pairs and triples of 120 types; every pair replayed through the real type operations and judged by TLC",
+         "TLC proves the laws on the model for all 120 types (4 bases x up to 3 list levels x all nullability masks) and 40+ values, and the real intersect, is_scalar_only_subtype, equal_ignoring_nullability and "
+         "is_valid_value agree with Types.tla on every ordered pair / (type, value).",
+         "Bounded to 3 list levels; enum values excluded from is_valid_value (unsupported by the crate, see C12)."),
+ "C18": (MC, "6/C18", "TLC judge: Decode.tla outcome (ok iff representable and identical / err) for every value x target type decoded by the real TryIntoStruct",
+         "Every value of the 83-value universe is decoded into 19 target field types (all integer widths, f32/f64, bool, String, Option, Vec, nested Vec, tuple) by the real deserializer; TLC compares each outcome with "
+         "Decode!Outcome: a value is produced iff it is representable, and then it is exactly the row's value.",
+         "Bounded universe; f64->f32 narrowing and float->integer are not judged (the property does not speak of them); EdgeParameters decoding not yet driven."),
 }
-NOT_YET = "check not built yet at this commit (see DESIGN.md section 6 for the planned decision procedure)"
+NOT_YET ="check not built yet at this commit (see DESIGN.md section 6 for the planned decision procedure)"
 
 def main():
     checks = []
